@@ -265,7 +265,10 @@ def _strip_comments(txt):
     return re.sub(r"//[^\n]*", "", txt)
 
 
-def scan_pub_fns(repo="/repo"):
+def scan_pub_fns(repo=None):
+    if repo is None:
+        import genlib
+        repo = genlib.repo_path()
     """names of the `pub fn`s that are reachable from outside the crate: free functions of modules that
     are public all the way up (or re-exported with `pub use`), and methods of publicly exported types.
     `pub fn`s of private helper modules are internal and are not the sweep's business."""
